@@ -10,6 +10,7 @@ import (
 	"sort"
 	"strings"
 	"sync"
+	"sync/atomic"
 	"time"
 
 	"verifh/hutil"
@@ -37,7 +38,8 @@ type Req struct {
 // Scen is one generated (or replayed) scenario.
 type Scen struct {
 	ID          int     `json:"id"`
-	Class       string  `json:"class"` // safe | tight | finding
+	MinOf       int     `json:"min_of,omitempty"` // minimised from the scenario with this id (+1)
+	Class       string  `json:"class"`            // safe | tight | finding
 	Cfg         Cfg     `json:"cfg"`
 	NRes        int     `json:"nres"`
 	ResMode     []int   `json:"res_mode"` // index 1..NRes: 0 registered at start, 1 registered late, 2 never
@@ -120,7 +122,9 @@ func sameItems(a, b []Item) bool {
 
 var initOnce sync.Once
 
-func runScenario(sc Scen) *Result {
+func runScenario(sc Scen) *Result { return runScenarioSlack(sc, 3*time.Second) }
+
+func runScenarioSlack(sc Scen, slack time.Duration) *Result {
 	initOnce.Do(undomysql.InitUndoLogManager)
 	res := &Result{Scen: sc}
 	iv := time.Duration(sc.Cfg.IntervalMs) * time.Millisecond
@@ -200,7 +204,7 @@ func runScenario(sc Scen) *Result {
 	}
 	// "eventually" on the implementation: 200 worker intervals (plus slack for a loaded machine;
 	// a lost request stays lost, so slack costs no detection power)
-	limit := 200*iv + 3*time.Second
+	limit := 200*iv + slack
 	deadline := start.Add(limit)
 	done := make(chan struct{})
 	go func() { wg.Wait(); close(done) }()
@@ -239,6 +243,13 @@ func runScenario(sc Scen) *Result {
 		for _, e := range w.trace {
 			if e.K == "D" && e.Ok && e.X >= 1 {
 				got[Item{X: e.X, B: e.B, R: e.R}]++
+			}
+			if e.K == "D" && e.Ok {
+				for _, x := range e.Xs {
+					for _, b := range e.Bs {
+						got[Item{X: x, B: b, R: e.R}]++
+					}
+				}
 			}
 		}
 		w.mu.Unlock()
@@ -383,21 +394,128 @@ func Run(args map[string]string) {
 			results[i] = runScenario(scens[i])
 		}
 	}
+	// once a few violating scenarios are known the rest is not explored: the first one is minimised
+	// instead, so that a violation is reported quickly
+	maxViol := int32(hutil.ArgInt(args, "maxviol", 3))
+	var nviol int32
 	sem := make(chan struct{}, par)
 	var wg sync.WaitGroup
 	for i := range scens {
 		if scens[i].Class == "finding" {
 			continue
 		}
+		if atomic.LoadInt32(&nviol) >= maxViol {
+			break
+		}
 		i := i
 		wg.Add(1)
 		sem <- struct{}{}
 		go func() {
 			defer wg.Done()
-			results[i] = runScenario(scens[i])
+			if atomic.LoadInt32(&nviol) < maxViol {
+				results[i] = runScenario(scens[i])
+				if violating(results[i]) {
+					atomic.AddInt32(&nviol, 1)
+				}
+			}
 			<-sem
 		}()
 	}
 	wg.Wait()
-	hutil.WriteJSON(args["out"], map[string]interface{}{"results": results})
+	var out []*Result
+	skipped := 0
+	var first *Result
+	for _, r := range results {
+		if r == nil {
+			skipped++
+			continue
+		}
+		if violating(r) && (first == nil || rank[kind(r)] > rank[kind(first)]) {
+			first = r // the clearest kind of violation is the one minimised
+		}
+		out = append(out, r)
+	}
+	if first != nil && hutil.ArgStr(args, "scen", "") == "" {
+		if m := minimise(first, 25*time.Second); m != nil {
+			out = append([]*Result{m}, out...)
+		}
+	}
+	hutil.WriteJSON(args["out"], map[string]interface{}{"results": out, "skipped": skipped})
+}
+
+// violating: the direct oracle's verdict on a scenario outside the small-buffers class.
+func violating(r *Result) bool {
+	if r.Scen.Class == "finding" {
+		return false
+	}
+	return !r.Quiescent || len(r.NotCommitted) > 0 || len(r.Imprecise) > 0 || len(r.Lost) > 0 || r.Unknown > 0
+}
+
+// minimise greedily removes requests, rows, pauses and lanes while the scenario keeps violating
+// (short slack while searching; the result is confirmed with the full bound).
+func minimise(first *Result, budget time.Duration) *Result {
+	sc, want := first.Scen, kind(first)
+	end := time.Now().Add(budget)
+	cur := sc
+	try := func(c Scen) bool {
+		if time.Now().After(end) {
+			return false
+		}
+		r := runScenarioSlack(c, time.Second)
+		return violating(r) && kind(r) == want
+	}
+	clone := func(c Scen) Scen {
+		d := c
+		d.Reqs = append([]Req{}, c.Reqs...)
+		d.Rows = append([]Item{}, c.Rows...)
+		return d
+	}
+	for i := len(cur.Reqs) - 1; i >= 0 && len(cur.Reqs) > 1; i-- {
+		c := clone(cur)
+		c.Reqs = append(c.Reqs[:i], c.Reqs[i+1:]...)
+		if try(c) {
+			cur = c
+		}
+	}
+	c := clone(cur)
+	for i := range c.Reqs {
+		c.Reqs[i].PauseUs, c.Reqs[i].Lane = 0, 0
+	}
+	if try(c) {
+		cur = c
+	}
+	c = clone(cur)
+	named := map[Item]bool{}
+	for _, q := range c.Reqs {
+		named[q.Item] = true
+	}
+	c.Rows = c.Rows[:0]
+	for _, row := range cur.Rows {
+		if named[row] {
+			c.Rows = append(c.Rows, row)
+		}
+	}
+	if len(c.Rows) > 0 && try(c) {
+		cur = c
+	}
+	cur.MinOf = sc.ID + 1
+	if r := runScenario(cur); violating(r) && kind(r) == want {
+		return r
+	}
+	return nil
+}
+
+var rank = map[string]int{"imprecise": 3, "lost": 2, "answer": 1, "unsettled": 0}
+
+// kind of violation, kept while minimising
+func kind(r *Result) string {
+	switch {
+	case len(r.Imprecise) > 0 || r.Unknown > 0:
+		return "imprecise"
+	case len(r.Lost) > 0:
+		return "lost"
+	case !r.Quiescent:
+		return "unsettled"
+	}
+	return "answer"
 }
